@@ -5,7 +5,7 @@ from .. import core
 ID = "C14"
 MODULE = "DrandProofs.C14"
 THEOREMS = ["Drand.Daemon." + t for t in [
-    "tie_nilDerefs", "tie_listeners", "tie_explicit_regions",
+    "tie_nilDerefs", "tie_listeners", "tie_explicit_regions", "tie_echo_nonblocking", "c14_code_still_serves",
     "c14_no_self_deadlock", "c14_read_reentries", "c14_locks_released", "c14_peer_regions_panic_free",
     "c14_detector_sees_prefix_deadlock",
     "c14_peer_recovers", "c14_control_does_not_recover",
